@@ -20,6 +20,8 @@ CLAUSE = CLAUSE + (" In generate_pes_packet, once raw_samples_left was set from 
 CLAUSE = CLAUSE + (" (RF-DEP, path-sensitive zero-ness valuations) in demux_ts_packet every copy that may bring ts_pes_todo to zero "
                    "(PES packet complete) is followed by the header examination or an explicit discard before the collecting cursor is "
                    "rewound for the next PES packet - also when the whole TS packet was already in the synchronisation buffer.")
+CLAUSE = CLAUSE + (" samples_pointer() advances a second-field row of a sequential raw frame by count[0], the size of the first field.")
+CLAUSE = CLAUSE + (" Every advance of the PES collecting cursor ts_pes_bp is paired, in the same step, with the countdown of ts_pes_todo by the same amount.")
 NOT_DECIDED = ("PES/TS header layout, PTS encoding, size rounding to 184 and stuffing arithmetic, that demux (mux (x)) == x as values, "
                "conformance to EN 300 472 / EN 301 775 beyond the table.")
 
@@ -73,9 +75,11 @@ def run(ctx, run):
     _raw_left_consistent(ctx, run, P.need("generate_pes_packet", MUX))
     _header_lookahead(ctx, run)
     _rejection_traceless(ctx, run, P.need("vbi_dvb_mux_feed", MUX))
+    _second_field_offset(ctx, run, P.need("samples_pointer", MUX))
     # TS round trip: a completed PES packet is examined on every path (rule shared with C07)
     from . import C07
     C07._complete_packet_examined(ctx, run, P.need("demux_ts_packet", DEMUX))
+    C07._cursor_and_count_together(ctx, run, P.need("demux_ts_packet", DEMUX))
 
 
 def _store_idx(f, lhs, base_name):
@@ -534,3 +538,41 @@ def _rejection_traceless(ctx, run, f):
                           "next accepted frame starts with a repeated continuity counter and a conforming demultiplexer drops it"
                           % ex.pretty(f, bad)[:60], ex.loc(f, bad), witness={"function": f.name})
     run.floor("failing exits of vbi_dvb_mux_feed", n, 3)
+
+
+def _second_field_offset(ctx, run, f):
+    """RF-UNIT: in a sequential (non-interlaced) raw frame the rows of the second field follow
+    the count[0] rows of the first; samples_pointer() therefore advances a second-field row by
+    sp->count[0] - the constant subscript 0, not the field the line belongs to.  With count[1]
+    the data units of a raw line carry the samples of another row whenever the two fields differ
+    in size (and of a row behind the buffer when the second field is the larger one)."""
+    run.touch(f)
+    n = 0
+    for bid, i in flow.all_events(f):
+        for lhs, var, op, rhs in flow.stores(f, i):
+            if lhs is None or op not in ("+=", "=") or rhs is None:
+                continue
+            l = f.exprs[ex.skip(f, lhs)]
+            if l["k"] != "ref" or l.get("name") != "row":
+                continue
+            for j in ex.walk(f, rhs):
+                x = f.exprs[j]
+                if x["k"] != "idx":
+                    continue
+                b = f.exprs[ex.skip(f, x["c"][0])]
+                while b["k"] == "cast":
+                    b = f.exprs[ex.skip(f, b["c"][0])]
+                if not (b["k"] == "mem" and b["member"] == "count"):
+                    continue
+                if op != "+=":
+                    continue
+                n += 1
+                key = "RF-UNIT:samples_pointer:first-field-rows"
+                if ex.const(f, x["c"][1]) == 0:
+                    run.holds("RF-UNIT", key, "`%s`: the second field starts after the count[0] rows of the first" % ex.pretty(f, i)[:40],
+                              ex.loc(f, i))
+                else:
+                    run.violation("RF-UNIT", key, "`%s` skips `%s` rows to reach the second field of a sequential raw frame; the rows "
+                                  "before it are the first field's (count[0]): with fields of different size the raw data units carry "
+                                  "the samples of another line" % (ex.pretty(f, i)[:40], ex.pretty(f, j)[:30]), ex.loc(f, i))
+    run.floor("row offsets by a field size in samples_pointer", n, 1)
